@@ -49,6 +49,7 @@ type Engine struct {
 	srcCache  map[string][]byte
 	implCache map[string][]*ssa.Function
 	intFuncs  map[string]bool
+	nonNilElems map[string]bool // type keys of pointer element types that are never nil inside slices
 }
 
 func loadEngine(repoDir string) (*Engine, error) {
@@ -92,6 +93,11 @@ func loadEngine(repoDir string) (*Engine, error) {
 		funcRefs: map[*ssa.Function]string{}, globalRefs: map[*ssa.Global]string{},
 		fileOf: map[string]*ast.File{}, srcCache: map[string][]byte{}, implCache: map[string][]*ssa.Function{}, intFuncs: map[string]bool{},
 	}
+	packages.Visit(pkgs, nil, func(p *packages.Package) {
+		if _, ok := e.pkgByPath[p.PkgPath]; !ok {
+			e.pkgByPath[p.PkgPath] = p
+		}
+	})
 	for _, p := range pkgs {
 		e.pkgByPath[p.PkgPath] = p
 		for _, f := range p.Syntax {
@@ -131,6 +137,19 @@ func loadEngine(repoDir string) (*Engine, error) {
 		e.allFuncs = append(e.allFuncs, fn)
 	}
 	sort.Slice(e.allFuncs, func(i, j int) bool { return e.allFuncs[i].String() < e.allFuncs[j].String() })
+	e.nonNilElems = map[string]bool{}
+	for _, nn := range e.contracts.NonNil {
+		p := e.pkgByPath[nn[0]]
+		if p == nil {
+			continue
+		}
+		tv, err := types.Eval(fset, p.Types, e.contractPos[nn[0]], nn[1])
+		if err != nil || !tv.IsType() {
+			e.contracts.Errors = append(e.contracts.Errors, fmt.Sprintf("nonnil-elems %s: cannot resolve type", nn[1]))
+			continue
+		}
+		e.nonNilElems[typeKey(tv.Type)] = true
+	}
 	return e, nil
 }
 
@@ -468,6 +487,21 @@ func (e *Engine) instrWrites(f *ssa.Function, ins ssa.Instruction, m map[string]
 	case ssa.CallInstruction:
 		cc := x.Common()
 		if cc.IsInvoke() {
+			if named, ok := cc.Value.Type().(*types.Named); ok && named.Obj().Pkg() != nil && !e.inRepo(named.Obj().Pkg().Path()) {
+				if c := e.contracts.lookup(named.Obj().Pkg().Path(), named.Obj().Name()+"."+cc.Method.Name()); c != nil && c.HasMod {
+					for _, it := range c.Modifies {
+						t := strings.TrimSpace(it.Text)
+						if strings.HasPrefix(t, "global(") {
+							name := strings.TrimSuffix(strings.TrimPrefix(t, "global("), ")")
+							if i := strings.LastIndex(name, "."); i >= 0 {
+								name = name[i+1:]
+							}
+							m["G|"+c.DeclPkg+"."+name] = true
+						}
+					}
+				}
+				return
+			}
 			if named, ok := cc.Value.Type().(*types.Named); ok && named.Obj().Pkg() != nil && e.inRepo(named.Obj().Pkg().Path()) {
 				if c := e.contracts.lookup(named.Obj().Pkg().Path(), named.Obj().Name()+"."+cc.Method.Name()); c != nil && c.HasMod {
 					for k := range e.ifaceModKeys(c, named, cc.Method.Name()) {
@@ -535,6 +569,20 @@ func (e *Engine) instrWrites(f *ssa.Function, ins ssa.Instruction, m map[string]
 				m[k] = true
 			}
 		default:
+			// dynamic call: a contract on the named function type (callback) bounds its effects
+			if named, ok := cc.Value.Type().(*types.Named); ok && named.Obj().Pkg() != nil {
+				if c := e.contracts.lookup(named.Obj().Pkg().Path(), named.Obj().Name()); c != nil && c.HasMod {
+					ok := true
+					for _, it := range c.Modifies {
+						if t := strings.TrimSpace(it.Text); t != "fresh" && t != "ghost" {
+							ok = false
+						}
+					}
+					if ok {
+						return
+					}
+				}
+			}
 			m["*"] = true // dynamic call
 		}
 	case *ssa.Go, *ssa.Select:
